@@ -188,6 +188,58 @@ def D4():
         f'spec modified by LanguageGraph(): {changed}; #expressions of LeafOne.s on 3 lookups: {counts} (expected 2,2,2)'
 
 
+def D9():
+    lg, lcf, m, *_ = base()
+    g = AttackGraph(lg, m)
+    n = g.get_node_by_full_name('h1:connect')
+    n.tags = ['hidden', 'x']
+    p = os.path.join(os.getcwd(), 'g.json')
+    g.save_to_file(p)
+    g2 = AttackGraph.load_from_file(p, model=m)
+    t = g2.get_node_by_full_name('h1:connect').tags
+    return t != ['hidden', 'x'], f'tags after save/load: {t!r}'
+
+
+def D10():
+    g = AttackGraph()
+    g.add_attacker(Attacker(name='dup'))
+    g.add_attacker(Attacker(name='dup'))
+    p = os.path.join(os.getcwd(), 'g2.json')
+    g.save_to_file(p)
+    g2 = AttackGraph.load_from_file(p)
+    return len(g2.attackers) != 2, f'2 attackers named dup saved, {len(g2.attackers)} loaded'
+
+
+def D18():
+    lg, lcf, m, *_ = base()
+    m.associations[0].extras = {'note': 'x'}
+    out = []
+    for ext in ('json', 'yml'):
+        p = os.path.join(os.getcwd(), 'm.' + ext)
+        try:
+            m.save_to_file(p)
+            m2 = Model.load_from_file(p, lcf)
+            ex = m2.associations[0].extras
+            ok = bool(ex) and dict(ex.as_dict() if hasattr(ex, 'as_dict') else ex) == {'note': 'x'}
+            out.append(f'{ext}: extras loaded={ok}')
+            if not ok:
+                return True, '; '.join(out)
+        except TypeError as e:
+            return True, f'{ext}: save raises TypeError: {e}'
+    return False, '; '.join(out)
+
+
+def D25():
+    lg, lcf, m, *_ = base()
+    try:
+        m.add_attacker(AttackerAttachment(name='a1'), attacker_id=9)
+        m.add_attacker(AttackerAttachment(name='a2'), attacker_id=9)
+    except ValueError:
+        return False, 'duplicate attacker id rejected'
+    n = len(m._to_dict()['attackers'])
+    return n != len(m.attackers), f'{len(m.attackers)} attackers in the model, {n} serialised'
+
+
 if __name__ == '__main__':
     ids = sys.argv[1:] or sorted((k for k in globals() if k[0] == 'D' and k[1:].isdigit()),
                                  key=lambda s: int(s[1:]))
